@@ -437,7 +437,32 @@ impl MqttState {
     }
 
     fn handle_incoming_pubcomp(&mut self, pubcomp: &PubComp) -> Result<Option<Packet>, StateError> {
-        let outgoing = self.check_collision(pubcomp.pkid).map(|publish| {
+        if !self.outgoing_rel.contains(pubcomp.pkid as usize) {
+            error!("Unsolicited pubcomp packet: {:?}", pubcomp.pkid);
+            return Err(StateError::Unsolicited(pubcomp.pkid));
+        }
+        self.outgoing_rel.set(pubcomp.pkid as usize, false);
+        // the QoS2 exchange is over, whatever the reason code says
+        self.inflight -= 1;
+
+        if pubcomp.reason != PubCompReason::Success {
+            warn!(
+                "PubComp Pkid = {:?}, reason: {:?}",
+                pubcomp.pkid, pubcomp.reason
+            );
+        }
+
+        // the pkid is free for a collided publish only if no newer publish took the slot
+        let collided = match self.outgoing_pub[pubcomp.pkid as usize] {
+            Some(_) => None,
+            None => self.check_collision(pubcomp.pkid),
+        };
+        let outgoing = collided.map(|publish| {
+            // the released publish goes on the wire: it has to be tracked like any other
+            // unacked publish (same as the puback path), else it's lost on reconnect
+            self.outgoing_pub[publish.pkid as usize] = Some(publish.clone());
+            self.inflight += 1;
+
             let pkid = publish.pkid;
             let event = Event::Outgoing(Outgoing::Publish(pkid));
             self.events.push_back(event);
@@ -446,21 +471,6 @@ impl MqttState {
             Packet::Publish(publish)
         });
 
-        if !self.outgoing_rel.contains(pubcomp.pkid as usize) {
-            error!("Unsolicited pubcomp packet: {:?}", pubcomp.pkid);
-            return Err(StateError::Unsolicited(pubcomp.pkid));
-        }
-        self.outgoing_rel.set(pubcomp.pkid as usize, false);
-
-        if pubcomp.reason != PubCompReason::Success {
-            warn!(
-                "PubComp Pkid = {:?}, reason: {:?}",
-                pubcomp.pkid, pubcomp.reason
-            );
-            return Ok(None);
-        }
-
-        self.inflight -= 1;
         Ok(outgoing)
     }
 
